@@ -53,6 +53,25 @@ theorem unmarshal_keeps_skipped (S : Schema) (fast : Bool) (fuel : Nat) (md : MD
 theorem template_facts : ∀ t ∈ Generated.unknownHandling, t.2.1 = true ∧ t.2.2.1 = true ∧ t.2.2.2 = true :=
   Bridge.Templates.unknown_fields_handled
 
+/-- ownership: the bytes `Marshal()` returns are a buffer allocated by that call (both templates), so nothing
+    the caller does to them afterwards can change what the message retains — in the model the result is a value;
+    this is the fact that makes that reading of the code sound -/
+theorem marshal_result_owned_by_caller :
+    ∀ t ∈ Generated.marshalReturns, t.2.1 = true ∧ ∀ r ∈ t.2.2, r = "[]byte{}, nil" ∨ r = "buf, err" :=
+  Bridge.Templates.marshal_result_is_fresh
+
+/-- the retained bytes are touched by the generated code only: the hand-written package that the generated
+    `Unmarshal` calls in the middle of its loop (extension arms) never mentions a message's unknown-field storage -/
+theorem only_generated_code_touches_retained_bytes : Generated.shimUnknownStoreMentions = 0 :=
+  Bridge.Templates.shim_leaves_unknown_store_alone
+
+/-- a second `Marshal` of the same message yields the same bytes (the model's `marshal` is a function of the
+    message contents; with `marshal_result_owned_by_caller` this is "re-emitted by the NEXT Marshal" for every
+    later one as well) -/
+theorem marshal_again_same (S : Schema) (md : MD) (fs : List F) (unk : Bytes) (b1 b2 : Bytes)
+    (h1 : marshal S md fs unk = .ok b1) (h2 : marshal S md fs unk = .ok b2) : b1 = b2 := by
+  rw [h1] at h2; injection h2
+
 /-- non-vacuity (and the purest older-schema case): a message type that defines nothing keeps every
     field of all four wire types, in order, and writes them back unchanged -/
 def sample : Bytes := [0x08, 0x96, 0x01, 0x15, 1, 2, 3, 4, 0x19, 1, 2, 3, 4, 5, 6, 7, 8, 0x22, 0x02, 0x68, 0x69,
